@@ -345,6 +345,9 @@ def make_classifier(name, rs, opt=0, n_jobs=None):
     if name == "MUSE":
         from sktime.classification.dictionary_based import MUSE
         return MUSE(random_state=rs, window_inc=(4, 2)[opt], bigrams=not opt)
+    if name == "ITDE":
+        from sktime.classification.dictionary_based import IndividualTDE
+        return IndividualTDE(random_state=rs, window_size=(10, 8)[opt], word_length=(8, 6)[opt])
     if name == "CENS":
         from sktime.classification.compose import ColumnEnsembleClassifier
         from sktime.classification.interval_based import (
@@ -362,10 +365,10 @@ def make_classifier(name, rs, opt=0, n_jobs=None):
     raise KeyError(name)
 
 
-CLASSIFIERS = ["TSF", "RISE", "STSF", "IBOSS", "BOSS", "CBOSS", "MUSE", "CENS"]
+CLASSIFIERS = ["TSF", "RISE", "STSF", "IBOSS", "BOSS", "CBOSS", "MUSE", "CENS", "ITDE"]
 # number of columns each classifier is run with
 CLF_COLS = {"TSF": [1], "RISE": [1], "STSF": [1], "IBOSS": [1], "BOSS": [1], "CBOSS": [1],
-            "MUSE": [1, 2], "CENS": [2]}
+            "MUSE": [1, 2], "CENS": [2], "ITDE": [1, 2]}
 
 
 def make_regressor(rs, opt=0, n_jobs=None):
